@@ -1214,6 +1214,8 @@ class Interp:
                     return obj.name
                 if name == '__members__' and getattr(obj, 'enum_members', None) is not None:
                     return dict(obj.enum_members)
+                if name == '_fields' and getattr(obj, 'is_namedtuple', False):
+                    return tuple(n for n, _ in obj.record_fields)
                 if not self.all_repo_bases(obj):
                     self.fail(f'attribute {name!r} of class {obj.name} (library base class)', node)
                 raise AbsRaise(ExcVal('AttributeError', (f'class {obj.name} has no attribute {name}',)), node)
@@ -1295,6 +1297,9 @@ class Interp:
                     raise AbsRaise(ExcVal('AttributeError', (f"property '{name}' of '{obj.cls.name}' object has no setter",)), node)
                 self.call_function(cv.setter, [obj, v], {}, node)
                 return
+            slots = self.class_slots(obj.cls)
+            if slots is not None and name not in slots:
+                raise AbsRaise(ExcVal('AttributeError', (f"'{obj.cls.name}' object has no attribute '{name}'",)), node)
             self.models.mutation(self, obj, f'.{name} =', node)
             obj.attrs[name] = v
             return
@@ -1627,6 +1632,30 @@ class Interp:
         if type(fn).__name__ == 'PartialVal':
             return self.call(fn.func, list(fn.args) + list(args), dict(fn.keywords, **kwargs), node, frame)
         return self.models.call(self, fn, args, kwargs, node, frame)
+
+    def class_slots(self, cls):
+        """the attribute names instances may carry if the class and all its bases declare __slots__ (None: instances have a __dict__)"""
+        names = set()
+        for k in [cls] + [b for b in cls.bases]:
+            if isinstance(k, ExtRef) and k.path == 'builtins.object':
+                continue
+            if not isinstance(k, ClassVal) or '__slots__' not in k.attrs:
+                return None
+            sl = k.attrs['__slots__']
+            if isinstance(sl, str):
+                sl = (sl,)
+            if not isinstance(sl, (tuple, list)) or not all(isinstance(x, str) for x in sl):
+                return None
+            names |= set(sl)
+            if k is not cls:
+                sub = self.class_slots(k)
+                if sub is None:
+                    return None
+                names |= sub
+        if '__dict__' in names:
+            return None
+        # private names are mangled
+        return {(f'_{cls.name.lstrip("_")}{n}' if n.startswith('__') and not n.endswith('__') else n) for n in names} | names
 
     def all_repo_bases(self, cls):
         return all(isinstance(b, ClassVal) and self.all_repo_bases(b) or (isinstance(b, ExtRef) and b.path in ('builtins.object',)) for b in cls.bases)
